@@ -88,23 +88,35 @@ class NP(Backend):
     flavours = None   # when set (a numpy Generator), every array handed to the library gets a random legal form
     flavour_counts = {}
 
+    dtypes = None     # when set (a numpy Generator), every array handed to the library gets a random element type
+    DTYPES = (np.uint8, np.int8, np.int16, np.int32, np.uint32, np.uint64, np.float64, np.float32, np.int64)
+
     def arr(self, x):
         a = np.array(x, dtype=np.int64)
-        if self.flavours is None or a.ndim == 0 or a.size == 0:
+        if a.ndim == 0 or a.size == 0:
             return a
-        # memory layouts only (the library itself hands out such views, e.g. L[::2], L[::-1], inverse()); the dtype stays the
-        # library's own int64 - other integer widths are not something its typed kernels promise to accept
+        if self.dtypes is not None:
+            # binary strings and phases 0..3 are exactly representable in every integer / float type; the library's own helpers
+            # hand out uint8 (binary_repr) and float arrays. bool is left out: the unchanged tree itself mis-multiplies bool
+            # strings (x + z saturates), so bool is not a form it supports. A refusal (exception) is accepted in these shards.
+            dt = self.DTYPES[int(self.dtypes.integers(len(self.DTYPES)))]
+            a = a.astype(dt)
+            name = "dtype-" + np.dtype(dt).name
+            self.flavour_counts[name] = self.flavour_counts.get(name, 0) + 1
+        if self.flavours is None:
+            return a
+        # memory layouts (the library itself hands out such views, e.g. L[::2], L[::-1], inverse())
         k = int(self.flavours.integers(2, 6)) if self.flavours.integers(4) else 0
         name = ["int64-C", "", "fortran", "strided-view", "negative-step-view", "offset-view"][k]
         self.flavour_counts[name] = self.flavour_counts.get(name, 0) + 1
         if k == 5:   # a window into a larger buffer along the first axis
-            big = np.zeros((a.shape[0] + 2,) + a.shape[1:], dtype=np.int64)
+            big = np.zeros((a.shape[0] + 2,) + a.shape[1:], dtype=a.dtype)
             big[1:-1] = a
             return big[1:-1]
         if k == 2 and a.ndim == 2:
             return np.asfortranarray(a)
         if k == 3:   # every second element of a wider buffer along the last axis
-            big = np.zeros(a.shape[:-1] + (2 * a.shape[-1],), dtype=np.int64)
+            big = np.zeros(a.shape[:-1] + (2 * a.shape[-1],), dtype=a.dtype)
             big[..., ::2] = a
             return big[..., ::2]
         if k == 4:
